@@ -95,6 +95,17 @@ Definition ok_or {E A} (o : option A) (e : E) : outcome E A :=
 Definition rmap_err {E F A} (f : E -> F) (x : outcome E A) : outcome F A :=
   match x with Ok a => Ok a | Err e => Err (f e) | Panic p => Panic p end.
 
+(* Result::expect / unwrap *)
+Definition rexpect {E F A} (x : outcome E A) : outcome F A :=
+  match x with Ok a => Ok a | Err _ => Panic PUnwrap | Panic p => Panic p end.
+(* derived PartialOrd on Option<T>: None < Some(_) *)
+Definition opt_ge {A} (ge : A -> A -> bool) (a b : option A) : bool :=
+  match a, b with
+  | _, None => true
+  | None, Some _ => false
+  | Some x, Some y => ge x y
+  end.
+
 (* assert!(b) *)
 Definition rassert {E} (b : bool) : outcome E unit := if b then Ok tt else Panic PAssert.
 
@@ -165,6 +176,8 @@ Fixpoint bt_get {K V} (eqb : K -> K -> bool) (m : list (K * V)) (k : K) : option
   end.
 Definition is_some_and_m {E A} (f : A -> outcome E bool) (o : option A) : outcome E bool :=
   match o with Some a => f a | None => Ok false end.
+Definition bt_remove {K V} (eqb : K -> K -> bool) (m : list (K * V)) (k : K) : list (K * V) :=
+  filter (fun e => negb (eqb (fst e) k)) m.
 Definition bt_contains {K V} (eqb : K -> K -> bool) (m : list (K * V)) (k : K) : bool :=
   existsb (fun kv => eqb (fst kv) k) m.
 Fixpoint filter_map {A B} (f : A -> option B) (l : list A) : list B :=
@@ -179,6 +192,10 @@ Definition max_by_key_step {A} (f : A -> Z) (best : option A) (x : A) : option A
   | Some b => if f b <=? f x then Some x else Some b
   end.
 Definition max_by_key {A} (f : A -> Z) (l : list A) : option A := fold_left (max_by_key_step f) l None.
+Definition list_min (l : list Z) : option Z :=
+  match l with [] => None | x :: l' => Some (fold_left Z.min l' x) end.
+Definition list_max (l : list Z) : option Z :=
+  match l with [] => None | x :: l' => Some (fold_left Z.max l' x) end.
 Definition vec_len {A} (l : list A) : Z := Z.of_nat (length l).
 (* Vec::pop: (popped element, remaining vector) *)
 Definition vec_pop {A} (l : list A) : option A * list A :=
